@@ -43,6 +43,7 @@ namespace ip {
 		: socket_base(ios)
 		, m_connect_timer(ios)
 		, m_recv_timer(ios)
+		, m_resend_timer(ios)
 	{}
 
 	tcp::socket::socket(socket&& s)
@@ -59,6 +60,7 @@ namespace ip {
 		, m_wait_recv_handler(std::move(s.m_wait_recv_handler))
 		, m_recv_buffer(std::move(s.m_recv_buffer))
 		, m_recv_timer(std::move(s.m_recv_timer))
+		, m_resend_timer(s.m_io_service)
 		, m_is_v4(std::move(s.m_is_v4))
 		, m_recv_null_buffers(std::move(s.m_recv_null_buffers))
 		, m_send_null_buffers(std::move(s.m_send_null_buffers))
@@ -79,6 +81,10 @@ namespace ip {
 
 		if (m_bound_to != ip::tcp::endpoint())
 			m_io_service.rebind_socket(&s, this, m_bound_to);
+
+		// a timer that is waiting cannot be moved (the simulation refers to it
+		// by address). Start ours instead
+		if (s.m_resend_timer.cancel() > 0) schedule_resend();
 	}
 
 	tcp::socket::~socket()
@@ -240,6 +246,7 @@ namespace ip {
 		m_incoming_queue.clear();
 		m_reorder_buffer.clear();
 		m_outgoing_packets.clear();
+		m_resend_timer.cancel();
 		m_queue_size = 0;
 		m_mss = 1475;
 		m_cwnd = m_mss * 2;
@@ -522,18 +529,7 @@ namespace ip {
 				p.overhead = 40;
 				p.hops = hops;
 				p.seq_nr = m_next_outgoing_seq++;
-				// a hop may report the drop long after this call returned. Route
-				// the report through the forwarder, which follows the socket
-				// when it is moved and is detached when it is closed or
-				// destroyed, and ignore it unless the socket is still on the
-				// connection the segment belongs to
-				p.drop_fun = [f = m_forwarder, c = m_channel](aux::packet pkt)
-				{
-					auto* s = static_cast<tcp::socket*>(f->destination());
-					if (s == nullptr || s->m_channel != c) return;
-					s->packet_dropped(std::move(pkt));
-				};
-
+				report_drops(p);
 				send_packet(std::move(p));
 				ptr += packet_size;
 				buf_size -= packet_size;
@@ -770,23 +766,81 @@ namespace ip {
 		forward_packet(std::move(p));
 	}
 
+	void tcp::socket::report_drops(aux::packet& p)
+	{
+		// a hop may report the drop long after the packet was sent. Route the
+		// report through the forwarder, which follows the socket when it is
+		// moved and is detached when it is closed or destroyed, and ignore it
+		// unless the socket is still on the connection the segment belongs to
+		p.drop_fun = [f = m_forwarder, c = m_channel](aux::packet pkt)
+		{
+			auto* s = static_cast<tcp::socket*>(f->destination());
+			if (s == nullptr || s->m_channel != c) return;
+			s->packet_dropped(std::move(pkt));
+		};
+	}
+
 	void tcp::socket::packet_dropped(aux::packet p)
 	{
+		// the segment is not on its way any more
+		auto const it = m_outstanding_packet_sizes.find(p.seq_nr);
+		if (it != m_outstanding_packet_sizes.end())
+		{
+			m_bytes_in_flight -= it->second;
+			m_outstanding_packet_sizes.erase(it);
+		}
+
 		int remote = m_channel->remote_idx(m_bound_to);
+		std::uint64_t const seq_nr = p.seq_nr;
 		p.hops = m_channel->hops[remote];
+		// the hop that dropped the packet consumed its drop handler
+		report_drops(p);
 		m_outgoing_packets.push_back(std::move(p));
+
+		// with nothing else in flight no ACK will come along and trigger the
+		// retransmission
+		if (m_bytes_in_flight == 0) schedule_resend();
 
 		const int packets_in_cwnd = m_cwnd / m_mss;
 
 		// we just recently dropped a packet and cut the cwnd in half,
 		// don't do it again already
-		if (m_last_drop_seq > 0 && p.seq_nr < m_last_drop_seq + packets_in_cwnd) return;
+		if (m_last_drop_seq > 0 && seq_nr < m_last_drop_seq + packets_in_cwnd) return;
 
 		m_cwnd /= 2;
-		m_last_drop_seq = p.seq_nr;
+		m_last_drop_seq = seq_nr;
 
 		// TODO: this should really happen one second later to be accurate
 		if (m_cwnd < m_mss) m_cwnd = m_mss;
+	}
+
+	void tcp::socket::resend_packets()
+	{
+		if (!m_channel) return;
+
+		// a packet that is dropped again while it's being resent is put back
+		// at the end of the list. Give every packet one attempt per call
+		std::size_t attempts = m_outgoing_packets.size();
+		while (attempts-- > 0
+			&& !m_outgoing_packets.empty()
+			&& m_bytes_in_flight
+				+ int(m_outgoing_packets.front().buffer.size()) <= m_cwnd)
+		{
+			aux::packet pkt = std::move(m_outgoing_packets.front());
+			m_outgoing_packets.erase(m_outgoing_packets.begin());
+			send_packet(std::move(pkt));
+		}
+	}
+
+	void tcp::socket::schedule_resend()
+	{
+		// TODO: derive the timeout from the round-trip time
+		m_resend_timer.expires_after(chrono::seconds(1));
+		m_resend_timer.async_wait([this](boost::system::error_code const& ec)
+		{
+			if (ec) return;
+			resend_packets();
+		});
 	}
 
 	void tcp::socket::incoming_packet(aux::packet p)
@@ -812,14 +866,7 @@ namespace ip {
 				m_bytes_in_flight -= acked_bytes;
 
 				// potentially resend packets
-				while (!m_outgoing_packets.empty()
-					&& m_bytes_in_flight
-						+ int(m_outgoing_packets.front().buffer.size()) <= m_cwnd)
-				{
-					aux::packet pkt = std::move(m_outgoing_packets.front());
-					m_outgoing_packets.erase(m_outgoing_packets.begin());
-					send_packet(std::move(pkt));
-				}
+				resend_packets();
 
 				// update cwnd based on the number of bytes ACKed.
 				// every round-trip, increase the window size by one packet
